@@ -218,6 +218,7 @@ func aliasReturns(r *core.Result, prog *core.Program, pk *packages.Package, func
 }
 
 func checkC10(r *core.Result) {
+	defer releaseExpansion()
 	r.Explanation = "Alias (origin) analysis of byte/string memory on go/ast + go/types: every value is classified fresh / internal / caller's-buffer by a flow-insensitive fixpoint over assignments (string([]byte) conversions, slices.Clone, bytes.Clone, make are fresh; sub-slices, unsafe casts, field reads of recorded data alias). " +
 		"Rules: (a) csproto.Decoder — every function of decoder.go returning string/[]byte returns aliasing memory only in a region guarded by the fast-mode test; DecodeBytes and Skip alias by documented design (named exceptions) — the generated code's handling of DecodeBytes results is checked on the expanded templates (E3 part); " +
 		"(b) lazyproto — every function or closure whose result holds bytes returns aliasing memory only under the unsafe-mode guard, element stores into returned containers likewise; (*Decoder).Decode hands the caller's buffer to the pooled decode only on the path where the mode is not safe (otherwise a clone); the deprecated Decode always clones; scratch-slice caching is C14-R4."
@@ -341,6 +342,8 @@ func checkC10(r *core.Result) {
 	}
 	// entry points hand the caller's buffer to the decode only in fast mode
 	checkDecodeEntry(r, prog, lp)
+	// E3: generated Unmarshal in safe mode
+	genAliasRule(r)
 }
 
 func namedRecvSafe(f *core.FuncInfo) string {
@@ -380,4 +383,149 @@ func checkDecodeEntry(r *core.Result, prog *core.Program, lp *packages.Package) 
 		})
 	}
 	r.Floor("decode entry calls", n, 3)
+}
+
+// genAliasRule (E3 part): in generated Unmarshal built WITHOUT enableunsafedecode, a value obtained from
+// dec.DecodeBytes() (a sub-slice of the input) must not be stored into the message without a copy.
+func genAliasRule(r *core.Result) {
+	ex := getExpansion(r)
+	if ex == nil {
+		return
+	}
+	n := 0
+	for _, u := range ex.Units {
+		if u.Pkg == nil || len(u.TypeErrors) > 0 || u.Combo.Unsafe {
+			continue
+		}
+		info := u.Pkg.TypesInfo
+		for _, mc := range messagesOf(u) {
+			if mc.unmarshal == nil {
+				continue
+			}
+			us := dissectUnmarshal(info, mc)
+			if us == nil || us.sw == nil {
+				continue
+			}
+			recv := recvObj(info, mc.unmarshal)
+			for _, a := range us.arms {
+				// locals holding the un-copied sub-slice
+				tainted := map[types.Object]bool{}
+				isCopy := func(e ast.Expr) bool {
+					c, ok := e.(*ast.CallExpr)
+					if !ok {
+						return false
+					}
+					name := types.ExprString(c.Fun)
+					if name == "slices.Clone" || name == "bytes.Clone" || name == "string" {
+						return true
+					}
+					if name == "append" && c.Ellipsis != token.NoPos && len(c.Args) == 2 {
+						// append(fresh, b...) copies
+						if id, ok := c.Args[0].(*ast.Ident); ok && tainted[info.Uses[id]] {
+							return false
+						}
+						if _, isSel := c.Args[0].(*ast.SelectorExpr); isSel {
+							// append(m.X, b...) on a []byte field copies the bytes
+							if s, ok := info.TypeOf(c.Args[0]).Underlying().(*types.Slice); ok {
+								if b, ok := s.Elem().Underlying().(*types.Basic); ok && b.Kind() == types.Byte {
+									return true
+								}
+							}
+						}
+						return true
+					}
+					return false
+				}
+				mentions := func(e ast.Expr) bool {
+					if isCopy(e) {
+						return false
+					}
+					hit := false
+					ast.Inspect(e, func(m ast.Node) bool {
+						if c, ok := m.(*ast.CallExpr); ok && isCopy(c) {
+							return false
+						}
+						if id, ok := m.(*ast.Ident); ok && tainted[info.Uses[id]] {
+							hit = true
+						}
+						if c, ok := m.(*ast.CallExpr); ok {
+							if fn := staticCallee(info, c); fn != nil && fn.Name() == "DecodeBytes" && fn.Pkg() != nil && fn.Pkg().Path() == csp {
+								hit = true
+							}
+						}
+						return true
+					})
+					return hit
+				}
+				for round := 0; round < 4; round++ {
+					for _, s := range a.clause.Body {
+						ast.Inspect(s, func(m ast.Node) bool {
+							as, ok := m.(*ast.AssignStmt)
+							if !ok {
+								return true
+							}
+							var srcTainted bool
+							if len(as.Rhs) == 1 {
+								srcTainted = mentions(as.Rhs[0])
+							}
+							for i, l := range as.Lhs {
+								if len(as.Rhs) == len(as.Lhs) {
+									srcTainted = mentions(as.Rhs[i])
+								}
+								if !srcTainted {
+									continue
+								}
+								if id := rootIdent(l); id != nil {
+									o := info.Defs[id]
+									if o == nil {
+										o = info.Uses[id]
+									}
+									if o != nil && o != recv && mayHoldBytesDeep(o.Type(), 0) {
+										tainted[o] = true
+									}
+								}
+							}
+							return true
+						})
+					}
+				}
+				if len(tainted) == 0 {
+					continue
+				}
+				n++
+				var bad []string
+				for _, s := range a.clause.Body {
+					ast.Inspect(s, func(m ast.Node) bool {
+						switch x := m.(type) {
+						case *ast.AssignStmt:
+							for i, l := range x.Lhs {
+								if id := rootIdent(l); id == nil || info.Uses[id] != recv {
+									continue
+								}
+								rhs := x.Rhs[0]
+								if len(x.Rhs) == len(x.Lhs) {
+									rhs = x.Rhs[i]
+								}
+								if mentions(rhs) {
+									bad = append(bad, types.ExprString(l)+" = "+types.ExprString(rhs))
+								}
+							}
+						case *ast.CallExpr:
+							if fn := staticCallee(info, x); fn != nil && fn.Name() == "SetExtension" {
+								for _, arg := range x.Args {
+									if mentions(arg) {
+										bad = append(bad, types.ExprString(x))
+									}
+								}
+							}
+						}
+						return true
+					})
+				}
+				r.GroupOb("A-generated", armGroup(a), armLabel(u, mc, a), mc.pos(ex, a.clause.Pos()), len(bad) == 0,
+					"the sub-slice returned by DecodeBytes is stored into the message without a copy ("+strings.Join(dedupe(bad), "; ")+"): in the default safe mode the decoded bytes change when the caller reuses the input buffer")
+			}
+		}
+	}
+	r.Floor("generated arms handling DecodeBytes results (safe mode)", n, 40)
 }
